@@ -2,6 +2,7 @@
 \* an Err carries nothing
 SPECIFICATION Spec
 CONSTANT FlushBeforeReturn = TRUE
+CONSTANT SkipWhenSame = FALSE
 CONSTANT FormatErrorSurfaces = TRUE
 INVARIANTS ErrMeansNothing
 CHECK_DEADLOCK FALSE
